@@ -70,6 +70,11 @@ class RefCloud:
             raise httpx.ReadTimeout("timed out", request=request)
         if isinstance(fault, (list, tuple)) and fault[0] == "http":
             return httpx.Response(fault[1], text="error")
+        if isinstance(fault, (list, tuple)) and fault[0] == "exc":
+            # the exchange fails below the HTTP status level (connection dropped, protocol violation, proxy ...)
+            cls = getattr(httpx, fault[1])
+            raise cls("simulated " + fault[1], request=request) if fault[1] != "TooManyRedirects" else cls(
+                "simulated redirects", request=request)
         if isinstance(fault, (list, tuple)) and fault[0] == "api":
             return self._err(fault[1], "injected")
         if problems:
